@@ -19,6 +19,15 @@ static int cmd_macro(int, char**) {
     json prios = json::array();
     for (auto& m : mer.macros) prios.push_back(m.priority);
     out["prios"] = prios;
+    if (in.value("extract", false)) {
+      // the extraction result in full (TheoExtract.tla)
+      out["xtoks"] = th::tokens_json(mer.tokens);
+      json defs = json::array();
+      for (auto& m : mer.macros)
+        defs.push_back({{"prio", m.priority}, {"rule", th::tokens_json(m.rule)}, {"repl", th::tokens_json(m.replacement)},
+                        {"tmpl", m.template_token_indices}, {"cc", m.content_constraint_token_indices}});
+      out["defs"] = defs;
+    }
     json runs = json::array();
     for (auto& k : in["passes"]) {
       std::vector<MacroDefinition> defs = mer.macros;
